@@ -278,6 +278,7 @@ int main(int argc, char **argv) {
 		printf("%s\n", p.to_json().dump().c_str());
 		return 0;
 	}
+	if (mode == "--c15plan" && argc >= 3) { printf("%s\n", c15_scenario(atoi(argv[2])).to_json().dump().c_str()); return 0; }
 	if (mode == "--derive" && argc >= 3) {
 		Plan p; JV whole;
 		if (!load_plan(argv[2], p, whole)) return 2;
@@ -309,6 +310,37 @@ int main(int argc, char **argv) {
 				Plan p = generate_plan(profile, seed, opts);
 				JV r = handle(p, !opts.getb("noshrink"));
 				printf("%s\n", r.dump().c_str()); fflush(stdout);
+			} else if (cmd == "c15") {
+				// single-fault enumeration: scenario idx, allocation indices kfrom..kto (0 = the fault-free run that counts allocations)
+				int idx = 0; long kfrom = 0, kto = 0; is >> idx >> kfrom >> kto;
+				Plan base = c15_scenario(idx);
+				JV out = JV::obj(); out.set("idx", JV::num(idx)); out.set("nops", JV::num((double)base.ops.size()));
+				JV arr = JV::arr();
+				for (long k = kfrom; k <= kto; k++) {
+					Plan p = base;
+					if (k > 0) p.hdr.put("allocfail", JV::arr().push(JV::num((double)k)));
+					JV r = run_once(p);
+					JV e = JV::obj(); e.set("k", JV::num((double)k));
+					const JV *st = r.get("stats");
+					double allocs = st ? st->getd("allocs") : 0;
+					e.set("allocs", JV::num(allocs));
+					bool reached = k > 0 && (r.getb("crash") || allocs >= (double)k);
+					e.set("reached", JV::boolean(reached));
+					if (st) { const JV *pr = st->get("probes"); if (pr) { e.set("startup", JV::boolean(pr->getd("alloc_failed_during_startup") > 0)); e.set("canary", JV::boolean(pr->getd("canary_ok") > 0)); } e.set("vtime_ns", JV::num(st->getd("vtime_ns"))); e.set("steps", JV::num(st->getd("steps"))); e.set("msgs", JV::num(st->getd("msgs"))); }
+					e.set("trace", JV::str(r.gets("trace")));
+					if (r.has("inconclusive")) e.set("inconclusive", JV::str(r.gets("inconclusive")));
+					if (r.has("harness_error")) e.set("harness_error", JV::str(r.gets("harness_error")));
+					if (r.getb("violated")) {
+						std::string sig = sig_of(r);
+						JV r2 = run_once(p);
+						if (sig_of(r2) != sig || r2.gets("trace") != r.gets("trace")) e.set("gate", JV::str("FAILED: second execution gave " + sig_of(r2)));
+						else { p.profile = "c15:" + std::to_string(idx) + ":" + std::to_string(k); std::string path = write_replay(p, r, sig); e.set("replay", JV::str(path)); e.set("gate", JV::str("ok")); }
+						e.set("violated", JV::boolean(true)); e.set("prop", JV::str(r.gets("prop"))); e.set("rule", JV::str(r.gets("rule"))); e.set("detail", JV::str(r.gets("detail").substr(0, 1500)));
+					}
+					arr.push(e);
+				}
+				out.set("results", arr);
+				printf("%s\n", out.dump().c_str()); fflush(stdout);
 			} else if (cmd == "plan") {
 				std::string file; is >> file; int sh = 0; is >> sh;
 				Plan p; JV whole;
